@@ -2,6 +2,7 @@ package main
 
 import (
 	"bytes"
+	"context"
 	"crypto"
 	"fmt"
 	"math/rand/v2"
@@ -51,8 +52,9 @@ func privileged(res rawResp) bool {
 type c02Scenario struct {
 	name string
 	// alter the honest ProveDevice of session 0 (device 1); nil = no ProveDevice at all
-	prove func(q *rawReq)
-	skip  bool // do not send 64
+	prove  func(q *rawReq)
+	skip   bool // do not send 64
+	nocert bool // device 2's stored voucher has no device certificate chain
 }
 
 func c02Scenarios() []c02Scenario {
@@ -71,6 +73,19 @@ func c02Scenarios() []c02Scenario {
 		{name: "body-truncated", prove: func(q *rawReq) { q.Wf, q.Variant = false, "truncated" }},
 		{name: "body-wrongtype", prove: func(q *rawReq) { q.Wf, q.Variant = false, "wrongtype" }},
 		{name: "body-random", prove: func(q *rawReq) { q.Wf, q.Variant = false, "random" }},
+		{name: "nonce-claim-missing", prove: func(q *rawReq) { q.Wf, q.Variant = false, "no-nonce-claim" }},
+		{name: "nonce-claim-text", prove: func(q *rawReq) { q.Wf, q.Variant = false, "nonce-text" }},
+		{name: "ueid-claim-missing", prove: func(q *rawReq) { q.Wf, q.Variant = false, "no-ueid-claim" }},
+		{name: "ueid-claim-text", prove: func(q *rawReq) { q.Wf, q.Variant = false, "ueid-text" }},
+		{name: "fdo-claim-missing", prove: func(q *rawReq) { q.Wf, q.Variant = false, "no-fdo-claim" }},
+		{name: "ueid-last-byte", prove: func(q *rawReq) { q.Dev, q.Variant = 0, "ueid-last-byte" }},
+		{name: "ueid-first-byte", prove: func(q *rawReq) { q.Dev, q.Variant = 0, "ueid-first-byte" }},
+		{name: "nonce-last-byte", prove: func(q *rawReq) { q.NonceOf, q.Variant = -1, "nonce-last-byte" }},
+		{name: "nonce-first-byte", prove: func(q *rawReq) { q.NonceOf, q.Variant = -1, "nonce-first-byte" }},
+		{name: "voucher-without-device-certificate", nocert: true, prove: func(q *rawReq) {
+			// session 2 is about device 2, whose stored voucher carries no certificate chain: nobody holds "its" key
+			q.Tok, q.Dev, q.NonceOf, q.Signer = "s2", 2, 2, -1
+		}},
 		{name: "replay-from-other-session-same-device", prove: func(q *rawReq) { q.NonceOf, q.Variant = 1, "replay" }},
 		{name: "replay-of-other-device", prove: func(q *rawReq) { q.NonceOf, q.Dev, q.Signer, q.Variant = 2, 2, 2, "replay" }},
 		{name: "token-none", prove: func(q *rawReq) { q.Tok = "n" }},
@@ -140,6 +155,19 @@ func c02Run(x *runCtx, r *rand.Rand, c c02Config, s c02Scenario) {
 		q := baseReq(0, 60)
 		q.Tok, q.Dev = "n", dev
 		return q
+	}
+	if s.nocert {
+		ctx := context.Background()
+		g := rw.devs[2].d.Cred.GUID
+		ov, err := rw.st.RemoveVoucher(ctx, g)
+		if err != nil {
+			fatal("voucher: %v", err)
+		}
+		ov.CertChain = nil // the entries stay valid
+		if err := rw.st.AddVoucher(ctx, ov); err != nil {
+			fatal("voucher: %v", err)
+		}
+		rw.j0 = rw.st.JournalLen()
 	}
 	// three sessions: the target (device 1), a second one of device 1, one of device 2
 	send(hello(1))
